@@ -401,17 +401,12 @@ func statusBeforeToleranceRule(c *Ctx, pr *PropertyRun, prop string) {
 		}
 		return v
 	}
-	for _, fn := range p.ModFns {
-		if !inLib(fn) || len(fn.Blocks) == 0 || (fnPkg(fn) != nil && fnPkg(fn).Path() == pkgInternal) {
-			continue
-		}
-		// status checks of this function: receiver root -> blocks where the
-		// check's error is known nil
-		type chk struct {
-			root ssa.Value
-			call *ssa.Call
-		}
-		var checks []chk
+	// checkedAt: in fn, the response behind root has had its own status found
+	// good (Path/Err returned a nil error) on every way to block at; for a
+	// helper that is handed the response, at every one of its call sites
+	var checkedAt func(fn *ssa.Function, root ssa.Value, at *ssa.BasicBlock, depth int) bool
+	checkedAt = func(fn *ssa.Function, root ssa.Value, at *ssa.BasicBlock, depth int) bool {
+		found := false
 		eachCall(fn, func(site ssa.CallInstruction) {
 			call, ok := site.(*ssa.Call)
 			if !ok {
@@ -421,8 +416,55 @@ func statusBeforeToleranceRule(c *Ctx, pr *PropertyRun, prop string) {
 			if callee == nil || (callee != pathFn && callee != errFn) || len(call.Common().Args) == 0 {
 				return
 			}
-			checks = append(checks, chk{recvRoot(call.Common().Args[0]), call})
+			if recvRoot(call.Common().Args[0]) != root {
+				return
+			}
+			var ev ssa.Value = call
+			if _, isTup := call.Type().(*types.Tuple); isTup {
+				ev = nil
+				for _, ref := range refsOf(call) {
+					if ex, isEx := ref.(*ssa.Extract); isEx && isErrorType(ex.Type()) {
+						ev = ex
+					}
+				}
+			}
+			if ev != nil && knownNilAt(ev, at) {
+				found = true
+			}
 		})
+		if found {
+			return true
+		}
+		prm, isPrm := root.(*ssa.Parameter)
+		if !isPrm || depth >= 2 || externallyCallable(fn) || fn.Parent() != nil {
+			return false
+		}
+		idx := paramIndex(fn, prm)
+		n := 0
+		for _, e := range c.CG().In[fn] {
+			if e.Site == nil || !p.InModule(e.Caller) || e.Kind == "closure" || e.Kind == "reflect" {
+				continue
+			}
+			cc := e.Site.Common()
+			var all []ssa.Value
+			if cc.IsInvoke() {
+				all = append(all, cc.Value)
+			}
+			all = append(all, cc.Args...)
+			if idx >= len(all) {
+				return false
+			}
+			n++
+			if !checkedAt(e.Caller, recvRoot(all[idx]), e.Site.Block(), depth+1) {
+				return false
+			}
+		}
+		return n > 0
+	}
+	for _, fn := range p.ModFns {
+		if !inLib(fn) || len(fn.Blocks) == 0 || (fnPkg(fn) != nil && fnPkg(fn).Path() == pkgInternal) {
+			continue
+		}
 		eachCall(fn, func(site ssa.CallInstruction) {
 			call, ok := site.(*ssa.Call)
 			if !ok || call.Common().StaticCallee() != decodeProp || len(call.Common().Args) == 0 {
@@ -433,24 +475,7 @@ func statusBeforeToleranceRule(c *Ctx, pr *PropertyRun, prop string) {
 			}
 			r.Role("tolerated-decode")
 			root := recvRoot(call.Common().Args[0])
-			ok = false
-			for _, ck := range checks {
-				if ck.root != root {
-					continue
-				}
-				var ev ssa.Value = ck.call
-				if _, isTup := ck.call.Type().(*types.Tuple); isTup {
-					ev = nil
-					for _, ref := range refsOf(ck.call) {
-						if ex, isEx := ref.(*ssa.Extract); isEx && isErrorType(ex.Type()) {
-							ev = ex
-						}
-					}
-				}
-				if ev != nil && knownNilAt(ev, call.Block()) {
-					ok = true
-				}
-			}
+			ok = checkedAt(fn, root, call.Block(), 0)
 			r.Ob(ok)
 			if !ok {
 				r.Violation("tolerance-before-status|"+fnKey(fn), p.instrPos(call), fmt.Sprintf("%s tolerates the error of Response.DecodeProp without having found the response's own status good first (Response.Path / Response.Err): a resource the server reports as failed (response-level 404) is treated as one that lacks the property, and the failure is dropped", fnKey(fn)), nil)
